@@ -175,6 +175,8 @@ class TermEngine(Engine):
             base = self.ev(e.value, env, pc)
             if isinstance(base, tuple) and base and base[0] == "modattr":
                 return ("modattr", base[1] + "." + base[2], e.attr)
+            if is_arr(base) and e.attr in getattr(self.c, "methods", {}):
+                return ("objmethod", base, e.attr)  # a method of an opaque object (declared by the contract with its result sort)
             if is_arr(base):
                 if e.attr == "T":
                     return uf("transpose", Arr, base)
@@ -233,6 +235,14 @@ class TermEngine(Engine):
                 fv = None
             if isinstance(fv, tuple) and fv and fv[0] == "modattr":
                 name = fv[1] + "." + fv[2]
+            elif isinstance(fv, tuple) and fv and fv[0] == "objmethod":
+                _, base, m = fv
+                if e.keywords:
+                    raise Unsupported("keyword arguments of method %s" % m)
+                margs = [self.ev(a, env, pc) for a in e.args]
+                if not all(is_z3(a) or isinstance(a, (int, float)) for a in margs):
+                    raise Unsupported("argument of method %s" % m)
+                return uf("method:" + m, self.c.methods[m], base, *margs)
             elif isinstance(fv, tuple) and fv and fv[0] == "arrmethod":
                 _, base, m = fv
                 if m in ("conj", "conjugate"):
